@@ -61,7 +61,7 @@ TABLES = [
 _V = 'malVisitor.'
 TABLES_B = [
     # ---- the compiler: one visit method per grammar rule (C04; C17 for what an include merges)
-    *[(f'B{100 + i}', _V + m, ('C04',)) for i, m in enumerate([
+    *[(f'B{100 + i}', _V + m, ('C04', 'C17') if m in ('visitMal', 'visitInclude') else ('C04',)) for i, m in enumerate([
         'visitMal', 'visitInclude', 'visitDefine', 'visitCategory', 'visitMeta', 'visitAsset', 'visitStep', 'visitSteptype',
         'visitTag', 'visitCias', 'visitCia', 'visitTtc', 'visitTtcexpr', 'visitTtcterm', 'visitTtcfact', 'visitTtcatom',
         'visitTtcdist', 'visitPrecondition', 'visitReaches', 'visitNumber', 'visitVariable', 'visitExpr', 'visitParts',
